@@ -32,6 +32,7 @@ type c16Acc struct {
 	size      uint64
 	data      []byte
 	mask      []bool
+	cwc       bool // CanWaitForCoalesce
 	msg       mem.AccessReq
 	delivered bool
 	accepted  bool
@@ -80,6 +81,9 @@ type c16Env struct {
 	badRestart bool
 	ctlDeliv   []string
 	fault      string
+	// deepening 2 (c16_deep2.go)
+	pageFlags bool              // pf=1: translation replies carry scrambled page attributes
+	lied      map[string]uint64 // "pid/vpage" -> physical page an untruthful reply (`xl`) carried
 }
 
 type c16Hook struct {
@@ -189,6 +193,13 @@ func c16PlSig(write bool, size uint64, data []byte, mask []bool) string {
 	return "w" + hexb(data) + "/" + ms
 }
 
+func c16Cwc(b bool) string {
+	if b {
+		return "c"
+	}
+	return ""
+}
+
 func (e *c16Env) onBotSend(m sim.Msg) {
 	n := len(e.bidNum)
 	e.bidNum[m.Meta().ID] = n
@@ -198,13 +209,14 @@ func (e *c16Env) onBotSend(m sim.Msg) {
 		info  interface{}
 		write bool
 	)
+	var fpid vm.PID
 	switch r := m.(type) {
 	case *mem.ReadReq:
-		addr, info = r.Address, r.Info
-		sig = c16PlSig(false, r.AccessByteSize, nil, nil)
+		addr, info, fpid = r.Address, r.Info, r.PID
+		sig = c16PlSig(false, r.AccessByteSize, nil, nil) + c16Cwc(r.CanWaitForCoalesce)
 	case *mem.WriteReq:
-		addr, info, write = r.Address, r.Info, true
-		sig = c16PlSig(true, 0, r.Data, r.DirtyMask)
+		addr, info, write, fpid = r.Address, r.Info, true, r.PID
+		sig = c16PlSig(true, 0, r.Data, r.DirtyMask) + c16Cwc(r.CanWaitForCoalesce)
 	default:
 		sig = "?"
 	}
@@ -234,9 +246,17 @@ func (e *c16Env) onBotSend(m sim.Msg) {
 	if a.epoch != e.epoch {
 		e.r.Failf("C16.flush.forward-after", e.line, "access %d accepted before flush #%d forwarded after it", idx, a.epoch+1)
 	}
+	if a.vaddr%(1<<e.lg)+uint64(max(int(a.size), len(a.data))) > 1<<e.lg {
+		e.r.Count("forward.page-straddling")
+	}
+	if fpid != 0 {
+		e.r.Failf("C16.forward.pid", e.line, "access %d: forwarded request carries PID %d, physical requests carry PID 0", idx, fpid)
+	}
 	page, found := e.pt.Find(a.pid, a.vaddr)
 	want := page.PAddr + a.vaddr%(1<<e.lg)
-	if !found || addr != want {
+	if _, lied := e.lied[fmt.Sprintf("%d/%x", a.pid, e.pageOf(a.vaddr))]; lied {
+		e.r.Count("forward.after-untruthful-reply")
+	} else if !found || addr != want {
 		other := ""
 		for pid := vm.PID(0); pid < 8; pid++ {
 			if p2, ok2 := e.pt.Find(pid, a.vaddr); ok2 && pid != a.pid && p2.PAddr+a.vaddr%(1<<e.lg) == addr {
@@ -245,8 +265,8 @@ func (e *c16Env) onBotSend(m sim.Msg) {
 		}
 		e.r.Failf("C16.forward.addr", e.line, "access %d pid %d vaddr %x: forwarded to %x, expected %x%s", idx, a.pid, a.vaddr, addr, want, other)
 	}
-	if write != a.write || sig != c16PlSig(a.write, a.size, a.data, a.mask) {
-		e.r.Failf("C16.forward.payload", e.line, "access %d: forwarded %s, original %s", idx, sig, c16PlSig(a.write, a.size, a.data, a.mask))
+	if osig := c16PlSig(a.write, a.size, a.data, a.mask) + c16Cwc(a.cwc); write != a.write || sig != osig {
+		e.r.Failf("C16.forward.payload", e.line, "access %d: forwarded %s, original %s", idx, sig, osig)
 	}
 	if !e.translated[fmt.Sprintf("%d/%x", a.pid, e.pageOf(a.vaddr))] {
 		e.r.Failf("C16.forward.untranslated", e.line, "access %d forwarded before any reply for (pid %d, page %x) was delivered", idx, a.pid, e.pageOf(a.vaddr))
@@ -390,6 +410,15 @@ func (e *c16Env) drain(p sim.Port, k int, sink func(sim.Msg)) string {
 
 func (e *c16Env) answerT(q *vm.TranslationReq) bool {
 	page, _ := e.pt.Find(q.PID, q.VAddr)
+	if e.pageFlags {
+		// every attribute of the page but PAddr is scrambled: the translator must not look at them
+		n := uint64(e.tidNum[q.ID])
+		page.Valid, page.IsMigrating, page.IsPinned, page.Unified = n%2 == 0, n%3 == 0, n%5 == 1, n%2 == 1
+		page.DeviceID, page.PageSize = n%4, 1<<((n%3)+4)
+		page.VAddr += (n + 1) << e.lg
+		page.PID += vm.PID(n + 1)
+		e.r.Count("reply.scrambled-page-attributes")
+	}
 	rsp := vm.TranslationRspBuilder{}.WithSrc("MMU").WithDst(q.Src).WithRspTo(q.ID).WithPage(page).Build()
 	if err := e.tr.Deliver(rsp); err != nil {
 		return false
@@ -435,8 +464,12 @@ func (e *c16Env) op(toks []string) {
 		a.vaddr, _ = strconv.ParseUint(toks[2], 16, 64)
 		if toks[3] == "r" {
 			a.size = uint64(argN(4))
-			a.msg = mem.ReadReqBuilder{}.WithSrc("CU").WithDst(e.top.AsRemote()).WithPID(a.pid).
+			rq := mem.ReadReqBuilder{}.WithSrc("CU").WithDst(e.top.AsRemote()).WithPID(a.pid).
 				WithAddress(a.vaddr).WithByteSize(a.size).WithInfo(idx).Build()
+			if len(toks) > 5 && toks[5] == "c" {
+				a.cwc, rq.CanWaitForCoalesce = true, true
+			}
+			a.msg = rq
 		} else {
 			a.write = true
 			a.data = make([]byte, len(toks[4])/2)
@@ -449,8 +482,12 @@ func (e *c16Env) op(toks []string) {
 					a.mask = append(a.mask, ch == '1')
 				}
 			}
-			a.msg = mem.WriteReqBuilder{}.WithSrc("CU").WithDst(e.top.AsRemote()).WithPID(a.pid).
+			wq := mem.WriteReqBuilder{}.WithSrc("CU").WithDst(e.top.AsRemote()).WithPID(a.pid).
 				WithAddress(a.vaddr).WithData(a.data).WithDirtyMask(a.mask).WithInfo(idx).Build()
+			if len(toks) > 6 && toks[6] == "c" {
+				a.cwc, wq.CanWaitForCoalesce = true, true
+			}
+			a.msg = wq
 		}
 		for len(e.accs) <= idx {
 			e.accs = append(e.accs, nil)
@@ -508,6 +545,29 @@ func (e *c16Env) op(toks []string) {
 		} else {
 			e.r.Count("reply.duplicate-translation")
 		}
+		e.out = append(e.out, "ok"+numOf(e.tidNum, q.ID))
+	case "xl": // an untruthful translation service: the j-th outstanding lookup is answered with page toks[2]
+		if len(e.envT) == 0 {
+			e.out = append(e.out, "none")
+			return
+		}
+		j := argN(1) % len(e.envT)
+		q := e.envT[j]
+		pa, _ := strconv.ParseUint(toks[2], 16, 64)
+		rsp := vm.TranslationRspBuilder{}.WithSrc("MMU").WithDst(q.Src).WithRspTo(q.ID).
+			WithPage(vm.Page{PID: q.PID, VAddr: q.VAddr, PAddr: pa, PageSize: 1 << e.lg, Valid: true, DeviceID: 1}).Build()
+		if err := e.tr.Deliver(rsp); err != nil {
+			e.out = append(e.out, "full")
+			return
+		}
+		if e.lied == nil {
+			e.lied = map[string]uint64{}
+		}
+		e.lied[fmt.Sprintf("%d/%x", q.PID, q.VAddr)] = pa
+		e.translated[fmt.Sprintf("%d/%x", q.PID, q.VAddr)] = true
+		e.envT = append(e.envT[:j:j], e.envT[j+1:]...)
+		e.oldT = append(e.oldT, q)
+		e.r.Count("reply.untruthful-translation")
 		e.out = append(e.out, "ok"+numOf(e.tidNum, q.ID))
 	case "xm", "ym":
 		lst := e.envM
@@ -743,7 +803,7 @@ var c16Fixed = [][]string{
 	{"c16 w=2 lg=12 salt=16", "a 1 0 r 4", "a 2 0 r 4", "t", "dx 2", "xt 0", "t", "db 1", "a 1 3000 r 4", "a 1 3004 r 4", "t", "f", "t", "dc 1", "xt 0", "xm 0", "t", "s", "t", "dc 1", "a 2 3000 r 4", "t", "dx 4", "xt 0", "xt 0", "t", "db 4", "xm 0", "t", "du 4", "t", "yt 0", "ym 0", "t", "t"},
 }
 
-func runC16Scenario(r *Run, ops []string, closed bool, kind string) {
+func runC16Scenario(r *Run, ops []string, closed bool, kind string) *c16Env {
 	cfg := strings.Fields(ops[0])
 	w, lg, salt := 4, uint64(12), uint64(16)
 	for _, t := range cfg {
@@ -758,6 +818,7 @@ func runC16Scenario(r *Run, ops []string, closed bool, kind string) {
 	}
 	line := strings.Join(ops, " ; ")
 	e := newC16Env(r, line, w, lg, salt)
+	e.pageFlags = strings.Contains(ops[0], " pf=1")
 	for _, o := range ops[1:] {
 		if e.fault != "" {
 			break
@@ -809,6 +870,7 @@ func runC16Scenario(r *Run, ops []string, closed bool, kind string) {
 			}
 		}
 	}
+	return e
 }
 
 func runC16(r *Run, rng *Rng, replay string) {
